@@ -50,6 +50,7 @@ package protocol
 //@ decoder (*TCP).UnmarshalBinary(t, data) (err) [C08 C12]
 
 //@ decoder (*IPv4).UnmarshalBinary(i, data) (err) [C08 C12]
+//@   ensures err == nil ==> wfl(i)
 
 //@ decoder (*Option).UnmarshalBinary(o, data) (err) [C08 C12]
 //@   ensures err == nil ==> int(o.Length) + 2 <= len(data)
@@ -67,11 +68,13 @@ package protocol
 //@   ensures err == nil ==> len(data) >= 8
 
 //@ decoder (*IPv6).UnmarshalBinary(i, data) (err) [C08 C12]
+//@   ensures err == nil ==> wfl(i)
 //@   loop 1:
 //@     invariant checkExtHeader && 40 <= n && n <= len(data)
 //@     decreases len(data) - n
 
 //@ decoder (*Ethernet).UnmarshalBinary(e, data) (err) [C08 C12]
+//@   ensures err == nil ==> wfl(e)
 
 //@ decoder (*IGMPv1or2).UnmarshalBinary(p, data) (err) [C08 C12]
 
